@@ -493,28 +493,49 @@ def round_up(s):
 ARM_ASM_RT = """
 global __sdiv
 __sdiv:
-   ; Divide r1 by r2
+   ; Signed divide r1 by r2 (rounding towards zero).
+   ; r0 is the quotient, all other registers are preserved.
+   push {r1, r2, r3, lr}
+   eor r3, r1, r2     ; The sign of the quotient
+   cmp r1, 0
+   bge __sdiv_abs1
+   rsb r1, r1, 0
+__sdiv_abs1:
+   cmp r2, 0
+   bge __sdiv_abs2
+   rsb r2, r2, 0
+__sdiv_abs2:
+   bl __udiv          ; Divide the magnitudes
+   cmp r3, 0
+   bge __sdiv_done
+   rsb r0, r0, 0
+__sdiv_done:
+   pop {r1, r2, r3, pc}
+
+global __udiv
+__udiv:
+   ; Unsigned divide r1 by r2
    ; R4 is a work register.
-   ; r0 is the quotient
-   push {r4}
+   ; r0 is the quotient, all other registers are preserved.
+   push {r1, r4}
    mov r4, r2         ; mov divisor into temporary register.
 
    ; Blow up divisor until it is larger than the divident.
    cmp r4, r1, lsr 1  ; If r4 < r1, then, shift left once more.
-__sdiv_inc:
+__udiv_inc:
    movls r4, r4, lsl 1
    cmp r4, r1, lsr 1
-   bls __sdiv_inc
+   bls __udiv_inc
    mov r0, 0          ; Initialize the result
                       ; Repeatedly substract shifted divisor
-__sdiv_dec:
+__udiv_dec:
    cmp r1, r4         ; Can we substract the current temp value?
    subcs r1, r1, r4   ; Substract temp from divisor if carry
    adc r0, r0, r0     ; double (shift left) and add carry
    mov r4, r4, lsr 1  ; Shift right one
    cmp r4, r2         ; Is temp less than divisor?
-   bhs __sdiv_dec     ; If so, repeat.
+   bhs __udiv_dec     ; If so, repeat.
 
-   pop {r4}
+   pop {r1, r4}
    mov pc, lr         ; Return from function.
 """
